@@ -382,7 +382,7 @@ static void scramBadParams(const ScramCase &k)
         c5.respond("i=" + BA::number(k.iters) + ",,x,y=z,p=tls-unique,s=" + s64 + ",r=" + nonce);
     }
     {
-        Client c6(k.cfg);   // RFC 5802 5.1: the reserved attribute m= MUST cause authentication failure
+        Client c6(k.cfg);   // RFC 5802 5.1: the reserved attribute m= MUST cause authentication failure (finding fixed in ff6a7ed)
         scramFirst(c6);
         expectRefused(c6, "m=ext," + refServerFirst(nonce, k.salt, k.iters), "C06:scram-reserved-m-attribute-accepted");
     }
@@ -395,7 +395,7 @@ static void scramBadSignature(const ScramCase &k, Rng &rng)
     const BA serverFirst = refServerFirst(nonce, k.salt, k.iters);
     ScramRecord rec = scramRecordOf(a, k.cfg.pass, k.salt, k.iters);
     ScramRecord other = scramRecordOf(a, k.cfg.pass + "x", k.salt, k.iters);
-    for (int variant = 0; variant < 7; variant++) {
+    for (int variant = 0; variant < 8; variant++) {
         Client cl(k.cfg);
         const BA clientFirst = scramFirst(cl);
         auto fin = cl.respond(serverFirst);
@@ -410,9 +410,10 @@ static void scramBadSignature(const ScramCase &k, Rng &rng)
         case 3: wrong = "v="; break;
         case 4: wrong = BA(); break;
         case 5: wrong = "e=invalid-proof"; break;
-        default: wrong = "v=" + (sig + char(0)).toBase64(); break;
+        case 6: wrong = "v=" + (sig + char(0)).toBase64(); break;
+        default: wrong = "m=ext,v=" + sig.toBase64(); break;      // right signature, but the reserved attribute is present
         }
-        expectRefused(cl, wrong, "C06:scram-wrong-server-signature-accepted");
+        expectRefused(cl, wrong, variant == 7 ? "C06:scram-reserved-m-attribute-accepted" : "C06:scram-wrong-server-signature-accepted");
         // and a later correct signature does not resurrect the exchange
         expectRefused(cl, "v=" + sig.toBase64(), "C06:scram-extra-challenge-answered");
     }
@@ -892,7 +893,7 @@ int main(int argc, char **argv)
             runMgrSequence(mk, { "S1" }, rng);         // seeded change C06_a2: success carrying a server-first message
             runMgrSequence(mk, { "C1", "Sw" }, rng);
             MgrCfg md { sasl2 == 1, { "DIGEST-MD5", "qxmpp1", "qxmpp123", "AMzVG8Oibf+sVUCPPlWLR8lZQvbbJtJB9vJd+u3c6dw=", "jabber.ru", "xmpp" } };
-            runMgrSequence(md, { "C1", "S" }, rng);    // DIGEST-MD5: success right after the response, no rspauth
+            runMgrSequence(md, { "C1", "S" }, rng);    // DIGEST-MD5: success right after the response, no rspauth (finding fixed in 8012ab0)
             runMgrSequence(md, { "C1", "Sw" }, rng);   // ... or with a wrong rspauth as success data
             runMgrSequence(md, { "C1", "Sv" }, rng);
         }
